@@ -102,9 +102,8 @@ Definition lift {A} (o : option A) : res A := match o with Some a => Ok a | None
 Definition rguard (b : bool) : res unit := if b then Ok tt else Rej.
 Notation "'dor' x <- e ; k" := (rbind e (fun x => k)) (at level 200, x pattern, e at level 100, k at level 200).
 
-(* fault sites *)
-Definition site_free_segment_length : N := 1.   (* bidib_state_free_single_segment_state_intern: g_string_free of the
-                                                   never-initialised member `length` (bidib_config_parser_track.c:1090-1093, 1209-1210) *)
+(* fault sites: none is reachable from a layout-following document any more (the uninitialised `length` of a
+   failed segment record was repaired in /repo); the constructor stays so that a fault would remain a value *)
 
 (* bidib_string_to_uid: "0x" + 14 characters *)
 Definition to_uid (s : str) : option (list N) :=
@@ -271,14 +270,15 @@ Definition add_aspect (acc : list aspect) (a : aspect_src) : option (list aspect
 Definition init_ok (ids : list str) (i : option str) : bool :=
   match i with None => true | Some v => mem_str v ids end.
 
-(* bidib_config_parse_single_board_accessory; pt = true for points-board, false for signals-board *)
+(* bidib_config_parse_single_board_accessory; pt = true for points-board, false for signals-board.
+   The duplicate-number scan covers the board points and the board signals of the board (one number space). *)
 Definition add_bacc (pt : bool) (bid : str) (s : st) (e : bacc_src) : option st :=
   do n <- to_byte (ba_num e);
   do asps <- fold_opt add_aspect (ba_aspects e) [];
   do _ <- guard (negb (is_nil asps));
   do _ <- guard (init_ok (map asp_id asps) (ba_init e));
   do b <- get_board bid s;
-  do _ <- guard (negb (existsb (fun m => bm_num m =? n) (if pt then bd_pb b else bd_sb b)));
+  do _ <- guard (negb (existsb (fun m => bm_num m =? n) (bd_pb b ++ bd_sb b)));
   do _ <- guard (negb (mem_str (ba_id e) (if pt then ptb s ++ ptd s else sgb s ++ sgd s)));
   let m := {| bm_id := ba_id e; bm_num := n; bm_aspects := asps |} in
   Some (if pt then upd_board bid (fun b => bset_pb b (bd_pb b ++ [m])) (set_ptb s (ptb s ++ [ba_id e]))
@@ -317,6 +317,7 @@ Definition dcc_in_use (s : st) (a : N * N) : bool :=
 
 (* bidib_config_parse_single_dcc_accessory + bidib_state_add_dcc_point/signal_state *)
 Definition add_dacc (pt : bool) (bid : str) (s : st) (e : dacc_src) : option st :=
+  do _ <- get_board bid s;
   do a <- to_pair (dc_addr e);
   do x <- to_byte (dc_ext e);
   do _ <- guard (x <=? 1);
@@ -341,18 +342,13 @@ Definition add_periph (bid : str) (s : st) (e : periph_src) : option st :=
   let m := {| pm_id := p_id e; pm_num := n; pm_port := pt; pm_aspects := asps |} in
   Some (upd_board bid (fun b => bset_pe b (bd_pe b ++ [m])) (set_pes s (pes s ++ [p_id e]))).
 
-(* bidib_config_parse_single_board_segment.  When the address scalar is malformed the loop ends before the
-   "length" scalar has been stored, and the error path hands the record to
-   bidib_state_free_single_segment_state_intern, which g_string_free()s the uninitialised member: a fault. *)
-Definition add_seg (bid : str) (s : st) (e : seg_src) : res st :=
-  match to_byte (sg_addr e) with
-  | None => Flt site_free_segment_length
-  | Some a =>
-      lift (do b <- get_board bid s;
-            do _ <- guard (negb (existsb (fun m => snd m =? a) (bd_sg b)));
-            do _ <- guard (negb (mem_str (sg_id e) (segs s)));
-            Some (upd_board bid (fun b => bset_sg b (bd_sg b ++ [(sg_id e, a)])) (set_segs s (segs s ++ [sg_id e]))))
-  end.
+(* bidib_config_parse_single_board_segment *)
+Definition add_seg (bid : str) (s : st) (e : seg_src) : option st :=
+  do a <- to_byte (sg_addr e);
+  do b <- get_board bid s;
+  do _ <- guard (negb (existsb (fun m => snd m =? a) (bd_sg b)));
+  do _ <- guard (negb (mem_str (sg_id e) (segs s)));
+  Some (upd_board bid (fun b => bset_sg b (bd_sg b ++ [(sg_id e, a)])) (set_segs s (segs s ++ [sg_id e]))).
 
 Definition add_rev (bid : str) (s : st) (e : rev_src) : option st :=
   do b <- get_board bid s;
@@ -368,7 +364,7 @@ Definition add_setup (s : st) (u : setup_src) : res st :=
   dor s3 <- lift (fold_opt (add_bacc false (su_id u)) (su_sb u) s2);
   dor s4 <- lift (fold_opt (add_dacc false (su_id u)) (su_sd u) s3);
   dor s5 <- lift (fold_opt (add_periph (su_id u)) (su_pe u) s4);
-  dor s6 <- fold_res (add_seg (su_id u)) (su_sg u) s5;
+  dor s6 <- lift (fold_opt (add_seg (su_id u)) (su_sg u) s5);
   lift (fold_opt (add_rev (su_id u)) (su_rv u) s6).
 
 (* ------------------------------------------------------------------ train file *)
@@ -394,8 +390,7 @@ Definition add_tperiph (acc : list (str * N)) (p : tperiph_src) : option (list (
 
 Definition steps_ok (v : N) : bool := (v =? 14) || (v =? 28) || (v =? 126).
 
-(* bidib_config_parse_single_train + bidib_state_add_train.  A train mapping that ends right after the
-   calibration sequence (no "peripherals" key) is an error in the C state machine. *)
+(* bidib_config_parse_single_train + bidib_state_add_train; calibration and peripherals are both optional *)
 Definition add_train (s : st) (t : train_src) : option st :=
   do a <- to_pair (t_addr t);
   do v <- to_byte (t_steps t);
@@ -404,7 +399,6 @@ Definition add_train (s : st) (t : train_src) : option st :=
             | None => Some None
             | Some l => do c <- cal_ok l; Some (Some c)
             end;
-  do _ <- guard (match t_cal t, t_per t with Some _, None => false | _, _ => true end);
   do ps <- fold_opt add_tperiph (match t_per t with Some l => l | None => [] end) [];
   do _ <- guard (negb (dcc_in_use s a));
   do _ <- guard (negb (existsb (fun x => str_eqb (tr_id x) (t_id t)) (trains s)));
